@@ -178,6 +178,8 @@ func describeMV(m MV) string {
 type CmpOpts struct {
 	// CheckVID: compare the ValueID of nested containers against the model.
 	CheckVID bool
+	// Hip: hash-input provider for keyed lookups (nil = the plain one)
+	Hip atree.HashInputProvider
 }
 
 // cmpValue checks that library value v has exactly the content of model value m.
@@ -362,7 +364,11 @@ func cmpMap(m *atree.OrderedMap, n *Node, path string, o CmpOpts) error {
 	for _, i := range lookupSample(uint64(len(ks))) {
 		ck := ks[i]
 		e := n.Ents[ck]
-		v, err := m.Get(compareValue, hashInput, keyValue(e.K))
+		hip := o.Hip
+		if hip == nil {
+			hip = hashInput
+		}
+		v, err := m.Get(compareValue, hip, keyValue(e.K))
 		if err != nil {
 			return fmt.Errorf("%s: Get(%s) of a present key failed: %w", path, short(ck), err)
 		}
